@@ -160,6 +160,40 @@ def _r181_182(ctx: Ctx) -> None:
 
 # --------------------------------------------------------------------- R18.3
 
+class _T(Tagged):
+    """Uninterpreted terms with arithmetic kept symbolic (addition is commutative)."""
+
+    def __add__(self, o):
+        return _T('add', *sorted((self, o), key=repr))
+
+    __radd__ = __add__
+
+    def __mod__(self, o):
+        return _T('mod', self, o)
+
+    def __floordiv__(self, o):
+        return _T('floordiv', self, o)
+
+    def __sub__(self, o):
+        return _T('sub', self, o)
+
+    def __rsub__(self, o):
+        return _T('sub', o, self)
+
+    def __mul__(self, o):
+        return _T('mul', *sorted((self, o), key=repr))
+
+    __rmul__ = __mul__
+
+    def __xor__(self, o):
+        return _T('xor', *sorted((self, o), key=repr))
+
+    __rxor__ = __xor__
+
+    def __hash__(self):
+        return Tagged.__hash__(self)
+
+
 class _Tst:
     """Outcome of a test `p_P[e] <op> c` on this path (decided once, recorded in the trace)."""
 
@@ -213,6 +247,8 @@ class _H183(Hooks):
             if name == 'n':
                 return self.nq
             return Tagged('code.' + name)
+        if isinstance(obj, Sym) and obj.name == 'decoder' and name == 'decode':
+            return Tagged('decoder.decode')
         return NOT_HANDLED
 
     def subscript(self, it, obj, idx, node, env):
@@ -246,8 +282,20 @@ class _H183(Hooks):
                 it.trace.append(('errprob', args[0], func.obj, args[1] if len(args) > 1 else kwargs.get('code'),
                                  args[2] if len(args) > 2 else kwargs.get('error_rate'), lo))
                 return _LogP(args[0], func.obj, a[1], a[2], lo)
-            if nm in ('measure_syndrome', 'decode', 'is_logical_error', 'in_codespace', 'is_success'):
+            if nm == 'measure_syndrome':
+                return _T('syndrome', args[0] if args else None)
+            if nm in ('is_logical_error', 'in_codespace', 'is_success'):
+                it.trace.append(('classify', nm, args[0] if args else None))
                 return TOP
+            if nm == 'decode':
+                return _T('correction', args[0] if args else None)
+        if isinstance(func, Tagged) and func.tag == 'decoder.decode':
+            return _T('correction', args[0] if args else None)
+        if isinstance(func, Tagged) and func.tag == 'code.measure_syndrome':
+            return _T('syndrome', args[0] if args else None)
+        if isinstance(func, Tagged) and func.tag in ('code.is_logical_error', 'code.in_codespace', 'code.is_success'):
+            it.trace.append(('classify', func.tag[5:], args[0] if args else None))
+            return TOP
         n = np_name(func)
         if n == 'zeros':
             return Tagged('new_edge')
@@ -387,6 +435,20 @@ def _r183(ctx: Ctx) -> None:
     ctx.ob('R18.3', site, 'get_next_error: proposal probabilities come from the channel of (self.code, error_rate)',
            das == {(repr(Sym('code')), repr(Sym('rate')))}, f'probability_distribution called with {sorted(das)}',
            key='SplittingSimulation.get_next_error|dist-args')
+
+    # (e) what is classified after an accepted draw is the residual (correction + new error) mod 2, the correction
+    # being the decoder's answer to the syndrome of the new error
+    new_err = Tagged('new_error')
+    want_res = _T('mod', _T('add', *sorted((_T('correction', _T('syndrome', new_err)), new_err), key=repr)), 2)
+    cls_args = [t[2] for o in rets for t in o.trace if t[0] == 'classify']
+    ctx.need(cls_args, 'R18.3', site, 'get_next_error: no classification of the residual found')
+    lost = [a for a in cls_args if a is TOP or 'TOP' in repr(a)]
+    if lost:
+        raise AnalysisError('R18.3', site, f'get_next_error: classified vector not tracked ({lost[0]!r})')
+    bad_res = [a for a in cls_args if not (a == want_res or a == _T('xor', *sorted((_T('correction', _T('syndrome', new_err)), new_err), key=repr)))]
+    ctx.ob('R18.3', site, 'get_next_error: the vector classified is (decode(syndrome(new error)) + new error) mod 2',
+           not bad_res, f'classifies {bad_res[0]!r}, expected {want_res!r}' if bad_res else '',
+           key='SplittingSimulation.get_next_error|residual', facts=sorted({repr(a) for a in cls_args}))
 
     # (d) what is returned is (error, log-likelihood OF THAT error) on every path: the caller records the number and
     # may hand it back as the likelihood of the current error
